@@ -92,8 +92,12 @@ def gen_generic_value(rng, depth=0):
     if r < 0.72:
         return [gen_generic_value(rng, depth + 1) for _ in range(rng.randrange(0, 4))]
     if r < 0.8:
+        doc = "{\"Statement\":[{\"Effect\":\"Allow\",\"Action\":\"s3:*\",\"Resource\":\"*\"}]}"
         return rng.choice([{}, {"Ref": "x"}, {"Key": "k", "Value": "v"}, {"Fn::Sub": "${A}"}, {"Statement": [{"Effect": "Allow", "Action": "s3:Get*", "Resource": "*"}]},
-                           {"CidrIp": "10.0.0.0/8", "IpProtocol": "tcp"}, {"StringEquals": {"a": "b"}}, {"BinaryEquals": {"k": "QUJDRA=="}}])
+                           {"CidrIp": "10.0.0.0/8", "IpProtocol": "tcp"}, {"StringEquals": {"a": "b"}}, {"BinaryEquals": {"k": "QUJDRA=="}},
+                           # members that are JSON text: the object as a whole is no property model until they are decoded
+                           {"PolicyName": "n", "PolicyDocument": doc}, {"Effect": "Allow", "Action": "s3:*", "Resource": "*", "Condition": "{\"StringEquals\":{\"a\":\"b\"}}"},
+                           {"Key": "true", "Value": "5"}])
     return {rng.choice(["a", "b", "Name", "Value", "Enabled", "Port", "When", "Cidr"]) + str(i): gen_generic_value(rng, depth + 1) for i in range(rng.randrange(0, 4))}
 
 
@@ -227,7 +231,9 @@ def run(report, tier, seed, driver, proofs_ok):
             d = first_diff(c1, c2)
             if d is not None or m2 != m:
                 what = "round-trip-changes-a-field"
-                if d is not None:
+                if d is not None and d[0] and d[0][-1] == "__class__":
+                    what = f"round-trip-changes-model-class:{d[1]}->{d[2]}"
+                elif d is not None:
                     a, b = d[1], d[2]
                     la = a[0] if isinstance(a, list) and len(a) == 2 and isinstance(a[0], str) else type(a).__name__
                     lb = b[0] if isinstance(b, list) and len(b) == 2 and isinstance(b[0], str) else type(b).__name__
@@ -283,8 +289,14 @@ def cast_roundtrip(report, rng, driver, n):
             report.violation("oracle", "cast-of-own-dump-raises-" + io["raised"], op={"value": v}, impl=io)
             continue
         if not io["equal"]:
-            report.violation("oracle", "generic-cast-of-own-dump-differs", op={"value": v}, impl=io, model={"first": mo["first"], "second": mo["second"]},
+            becomes_model = object_becomes_model(io["first"], io["second"])
+            report.violation("oracle", "generic-cast-of-own-dump-differs" + (":object-becomes-a-property-model" if becomes_model else ""), op={"value": v}, impl=io, model={"first": mo["first"], "second": mo["second"]},
                              oracle="_Auxiliar.cast(dump(_Auxiliar.cast(v))) == _Auxiliar.cast(v), classes and leaf types included")
+        if not io["equal"] and object_becomes_model(io["first"], io["second"]):
+            # the law `generic` of C15_cast_roundtrip fails for the real engine on this value (finding D35); the driver can not
+            # evaluate it (its dump of a property model is the raw object, pydantic's is the normalised one): nothing to compare
+            report.count("theorem-hypothesis-not-met:generic-object-becomes-a-property-model")
+            continue
         if mo["fuel_short"] or not mo["law_empty"]:
             report.count("theorem-hypothesis-not-met:" + ("fuel" if mo["fuel_short"] else "empty-object-is-a-model"))
             if not mo["law_empty"]:
@@ -294,6 +306,18 @@ def cast_roundtrip(report, rng, driver, n):
             report.disagreements_checked += 1
             report.violation("correspondence", "cast-round-trip-differs-from-model", op={"op": "roundtrip", "value": v}, impl=io, model={"first": mo["first"], "second": mo["second"], "equal": mo["equal"]},
                              oracle="Cast.cast E fuel (Cast.dump (Cast.cast E fuel j)) (C15_cast_roundtrip)")
+
+
+def object_becomes_model(a, b):
+    """somewhere a generic object ({"o": …}) of the first cast is a property model ({"model": …}) in the second"""
+    if isinstance(a, dict) and isinstance(b, dict):
+        if "o" in a and "model" in b:
+            return True
+        if "o" in a and "o" in b:
+            return any(object_becomes_model(x[1], y[1]) for x, y in zip(a["o"], b["o"]))
+    if isinstance(a, list) and isinstance(b, list):
+        return any(object_becomes_model(x, y) for x, y in zip(a, b))
+    return False
 
 
 B64 = "ABCDEFGHIJKLMNOPQRSTUVWXYZabcdefghijklmnopqrstuvwxyz0123456789+/"
